@@ -188,13 +188,13 @@ add("C07", "model_checking",
 
 add("C01", "model_checking",
     "solver-enumerated families (CrossHair/z3 over small integer genomes) of meta-model texts around every construct with positional/keyword arguments, each run through the real run.load_model",
-    "Small symbolic integers select the construct (constant_set / constant_* / @invariant / class decorators / type annotations / constructor shapes / base-class lists / verification-function bodies), the number of "
+    "Small symbolic integers select the construct (constant_set / constant_* / @invariant / class decorators / type annotations / constructor shapes / base-class lists / verification-function bodies / descriptions with every reference role and reST construct at five positions), the number of "
     "arguments and each argument form; the decoded text goes through the REAL run.load_model, which must return a symbol table or a non-empty error report and never raise.",
     "Finite families: the solver acts as an exhaustive enumerator and the front end runs concretely (stated honestly in DESIGN.md). Texts outside the families, and symbolic pattern strings (C16), are outside.")
 
 add("C02", "model_checking",
     "bounded symbolic execution (CrossHair/z3): schema inference + jsonschema/xsd generation on real-front-end IRs with symbolic length-comparison constants; all <target>/main.py drivers with symbolic failing step / failing file operation; concrete sweep of the corpus through main.execute",
-    "The real infer_constraints_by_class, jsonschema.generate and xsd._generate run on the six C15 templates whose comparison constants and operand orders are symbolic: each must return a result or errors and never raise. "
+    "The real infer_constraints_by_class, jsonschema.generate and xsd._generate run on the C15 templates whose comparison constants and operand orders are symbolic: each must return a result or errors and never raise. "
     "Every driver runs with a symbolic failing generator step, a symbolic failing file operation (OSError or UnicodeEncodeError) or a bad snippet: no exception and the C03 contract. Concretely, every corpus model goes through the real main.execute for all eight targets.",
     "Crashes inside the text templating of a generator for models outside the corpus are outside; regex VM translation is C18, literals C19.")
 
